@@ -313,6 +313,25 @@ func runRefRules(c *Ctx) {
 						}
 					}
 				}
+				if !okKey {
+					// `m[id(&S[i])] = &S[i]` with id a function value: every function it can be, at every call site of fn,
+					// answers with the element's id field
+					if call, isCall := mu.Key.(*ssa.Call); isCall && !call.Call.IsInvoke() && call.Call.StaticCallee() == nil && len(call.Call.Args) == 1 {
+						arg := call.Call.Args[0]
+						sameElem := arg == ssa.Value(ia) || canon(arg) == canon(ia)
+						if ld, isLd := arg.(*ssa.UnOp); isLd && !sameElem {
+							sameElem = ld.X == ssa.Value(ia) || canon(ld.X) == canon(ia)
+						}
+						fs := c.funcValues(call.Call.Value, 0)
+						allID := len(fs) > 0
+						for _, f := range fs {
+							if n := fieldSelectorOf(f); n != "Id" && n != "ID" {
+								allID = false
+							}
+						}
+						okKey = sameElem && allID
+					}
+				}
 				c.Check(okKey, "G13", shortName(fn), "id map "+describeMapExpr(mu.Map)+" keyed by the element's own id", p.ipos(mu), "m[S[i].id] = &S[i] with the same i", "id map entry pairs the id of one element with the address of another: key "+descr(mu.Key)+", value "+descr(mu.Value))
 			}
 		}
